@@ -20,7 +20,7 @@ type state struct {
 	calls  uint64 // rr: value of the counter before the next call
 	counts []int32
 	seen   map[string]int // hash: address -> loop
-	hist   []int // rr: loops chosen since the counter was last set
+	hist   []int          // rr: loops chosen since the counter was last set
 }
 
 var st state
